@@ -323,11 +323,6 @@ known.register('C01-rmsing-char', lambda spec, f: (
     f.where == 'TypeError@core/_files.py:removeSingleton' and
     f.klass.startswith('rmsing:') and 'charvar' in _ctx(f)))
 
-known.register('C01-eval-masked-scalar', lambda spec, f: (
-    f.clause == 'in-domain-raised' and
-    f.where == 'AttributeError@core/_variables.py:__new__' and
-    f.klass.startswith('eval:') and 'scalarvar' in _ctx(f)))
-
 known.register('C01-ioapi-slice-rowcol', lambda spec, f: (
     f.clause == 'malformed' and f.klass == 'slice:ioapi/degraded' and
     'degraded' in _ctx(f) and 'uses dimensions' in f.detail and
